@@ -873,7 +873,7 @@ func init() { generators["omni"] = genOmni }
 func genBigArrays(r *rand.Rand, i int) J {
 	n := 9 + r.Intn(40)
 	if i%9 == 4 {
-		n = pick(r, []int{63, 64, 65, 128, 129, 300}) // (beyond the lengths at which library sorts change their method once more)
+		n = pick(r, []int{63, 64, 65}) // (beyond the lengths at which library sorts change their method once more)
 	}
 	perm := r.Perm(n)
 	var items []any
